@@ -82,12 +82,24 @@ Section Spec.
          | atom => f atom
          end.
 
-  (* ---- Each-2: both atoms f(a;b); either empty []; lists pairwise *)
+  (* ---- Each-2: both atoms f(a;b); either empty []; lists pairwise.
+     DOMAIN DECISION (the reference is silent on an atom paired with a list; the specification follows the
+     implementation): a number paired with a list is an error; a character is the one-character string of it
+     and a dictionary stands for the list of its keys (Python's zip iterates both). *)
+  Definition pairable (a : val) : option (list val) :=
+    match a with
+    | VStr s => Some (chars s) | VList l => Some l
+    | VChar c => Some [VChar c] | VDict kvs => Some (map fst kvs)
+    | _ => None
+    end.
   Definition s_each2 (f : val -> val -> M val) (a b : val) : M val :=
     if is_empty a || is_empty b then ret (VList [])
     else if is_atom a && is_atom b then f a b
-    else bind (map2M f (items a) (items b)) (fun r => ret (VList r)).
-  (* the reference does not define Each-2 of an atom and a list *)
+    else match pairable a, pairable b with
+         | Some xs, Some ys => bind (map2M f xs ys) (fun r => ret (VList r))
+         | _, _ => fail E_TYPE
+         end.
+  (* the part of Each-2 the reference documents *)
   Definition each2_dom (a b : val) : bool :=
     is_empty a || is_empty b || Bool.eqb (is_atom a) (is_atom b).
 
@@ -111,10 +123,10 @@ Section Spec.
 
   (* ---- Each-Index: f([0;a1]), f([1;a2]), ... ; an atom is treated as its own only member *)
   Definition indexed (xs : list val) : list val :=
-    map (fun p => VList [VInt (Z.of_nat (fst p)); snd p]) (combine (seq 0 (List.length xs)) xs).
+    map (fun p => pair_val (Z.of_nat (fst p)) (snd p)) (combine (seq 0 (List.length xs)) xs).
   Definition s_each_index (f : val -> M val) (a : val) : M val :=
     if is_empty a then ret a
-    else if is_atom a then f (VList [VInt 0; a])
+    else if is_atom a then f (pair_val 0 a)      (* DOMAIN DECISION: the reference is silent; an atom is its own only member *)
     else bind (mapM f (indexed (items a))) (fun r => ret (VList r)).
 
   (* ---- Over, Over-Neutral *)
@@ -208,4 +220,21 @@ Fixpoint prefixes {A} (l : list A) : list (list A) :=
   match l with
   | [] => []
   | x :: l' => [x] :: map (cons x) (prefixes l')
+  end.
+
+(* the running left fold of a pure dyad after its first element: f(t;x1), f(f(t;x1);x2), ... *)
+Fixpoint acc_res (g : val -> val -> res val) (total : val) (it : list val) : res (list val) :=
+  match it with
+  | [] => Ok []
+  | x :: it' =>
+      match g total x with
+      | Ok t => match acc_res g t it' with Ok r => Ok (t :: r) | other => other end
+      | Err e => Err e
+      | OutOfFuel => OutOfFuel
+      end
+  end.
+Definition scan_pure (g : val -> val -> res val) (l : list val) : res val :=
+  match l with
+  | [] => Err E_TYPE
+  | x :: l' => match acc_res g x l' with Ok r => Ok (VList (x :: r)) | Err e => Err e | OutOfFuel => OutOfFuel end
   end.
